@@ -2,6 +2,7 @@ package rules
 
 import (
 	"go/token"
+	"sort"
 	"strings"
 
 	"golang.org/x/tools/go/ssa"
@@ -11,13 +12,15 @@ import (
 
 // C04 — encrypted messages round-trip; padding 12..1024; length % 16 == 0.
 func init() {
-	register("C04", []string{"crypto", "bin"}, func(c *engine.Ctx) {
-		c.Explain("C04: (R1) crypto.countPadding(l, _) ⊆ [12,1024] for every l ≥ 0 (intervals; call sites pass a length); (R1b, exhaustive mod 16) (l + countPadding(l, _)) %% 16 == 0 for every residue of l; (R2) EncryptedMessageData.Encode/EncodeWithoutCopy vs Decode/DecodeWithoutCopy and EncryptedMessage.Encode vs Decode/DecodeWithoutCopy perform the same wire operations on the same fields in the same order; (R3) encryptMessage derives msg_key and AES keys with c.encryptSide, Decrypt/decryptMessage with c.encryptSide.DecryptSide(), and DecryptSide swaps Client and Server; (R4) decryptMessage rejects len %% 16 != 0 before DecryptAES256Blocks.")
+	register("C04", []string{"crypto", "bin", "mtproto"}, func(c *engine.Ctx) {
+		c.Explain("C04: (R1) crypto.countPadding(l, _) ⊆ [12,1024] for every l ≥ 0 (intervals; call sites pass a length); (R1b, exhaustive mod 16) (l + countPadding(l, _)) %% 16 == 0 for every residue of l; (R2) EncryptedMessageData.Encode/EncodeWithoutCopy vs Decode/DecodeWithoutCopy and EncryptedMessage.Encode vs Decode/DecodeWithoutCopy perform the same wire operations on the same fields in the same order; (R3) encryptMessage derives msg_key and AES keys with c.encryptSide, Decrypt/decryptMessage with c.encryptSide.DecryptSide(), and DecryptSide swaps Client and Server; (R4) decryptMessage rejects len %% 16 != 0 before DecryptAES256Blocks; (R5) Decrypt accepts everything Encrypt can produce: at its accepting return the payload-length interval is exactly [0, MaxInt32] and the padding interval exactly [12, 1024] (no extra rejection); (R6) every EncryptedMessageData that mtproto.Conn.newEncryptedMessage hands to Encrypt carries Salt = session salt, SessionID = session id, MessageID and SeqNo = the parameters, on every branch, and is encrypted with the same session's key.")
 		c.NotCover("AES-IGE and SHA-256 values; equality of decrypted and original payload bytes")
 		c04R1(c)
 		c04R2(c)
 		c04R3(c)
 		c04R4(c)
+		c04R5(c)
+		c04R6(c)
 	})
 }
 
@@ -187,4 +190,116 @@ func c04R4(c *engine.Ctx) {
 		c.Check(ok, "C04.R4", "decryptMessage/block-guard", call.Pos(), "AES-IGE decryption (panics on partial blocks) must be guarded by len(EncryptedData) %% 16 == 0")
 	}
 	c.Floor("C04.R4", 1, len(calls))
+}
+
+func c04R5(c *engine.Ctx) {
+	fn := c.MustFunc("C04.R5", "crypto", "Cipher.Decrypt")
+	if fn == nil {
+		return
+	}
+	iv := engine.NewBounds().IV
+	n := 0
+	for _, r := range engine.SuccessReturns(fn) {
+		var pad *ssa.BinOp
+		var dataLen ssa.Value
+		engine.Instrs(fn, func(i ssa.Instruction) {
+			b, ok := i.(*ssa.BinOp)
+			if !ok || b.Op != token.SUB {
+				return
+			}
+			dx, dy := engine.Describe(b.X), engine.Describe(b.Y)
+			if strings.HasPrefix(dx, "builtin.len(") && strings.Contains(dx, "MessageDataWithPadding") && strings.HasSuffix(dy, ".MessageDataLen") {
+				pad, dataLen = b, b.Y
+			}
+		})
+		if pad == nil {
+			c.Undecided("C04.R5", "Decrypt/padding-value", r.Pos(), "cannot find len(MessageDataWithPadding) - MessageDataLen")
+			continue
+		}
+		n++
+		d := iv.At(dataLen, r)
+		p := iv.At(pad, r)
+		c.Check(d.Lo <= 0 && d.Hi >= 1<<31-1, "C04.R5", "Decrypt/accepts-all-lengths", r.Pos(), "payload lengths accepted ∈ %s: every length ≥ 0 that Encrypt can produce (including 0) must be accepted", d)
+		c.Check(p.Lo <= 12 && p.Hi >= 1024, "C04.R5", "Decrypt/accepts-all-paddings", r.Pos(), "paddings accepted ∈ %s: the whole range 12..1024 that a peer may use must be accepted", p)
+	}
+	c.Floor("C04.R5", 1, n)
+}
+
+func c04R6(c *engine.Ctx) {
+	fn := c.MustFunc("C04.R6", "mtproto", "Conn.newEncryptedMessage")
+	if fn == nil {
+		return
+	}
+	var sess *ssa.Call
+	for _, call := range engine.CallsTo(fn, false, "(*mtproto.Conn).session") {
+		sess, _ = call.(*ssa.Call)
+	}
+	n := 0
+	for _, call := range engine.Calls(fn) {
+		if !strings.HasSuffix(engine.CalleeID(call.Common()), ".Encrypt") || len(engine.Args(call.Common())) != 4 {
+			continue
+		}
+		args := engine.Args(call.Common())
+		okKey := sess != nil && engine.Describe(args[1]) == engine.Describe(sess)+".Key"
+		c.Check(okKey, "C04.R6", "newEncryptedMessage/key", call.Pos(), "the message must be encrypted with the current session's key (got %s)", engine.Describe(args[1]))
+		// d: the struct passed by value = load of the local d
+		ld, ok := args[2].(*ssa.UnOp)
+		if !ok {
+			c.Undecided("C04.R6", "newEncryptedMessage/data", call.Pos(), "cannot resolve the EncryptedMessageData passed to Encrypt")
+			continue
+		}
+		// definitions of d: whole-struct stores (from literals) — each must set the four header fields
+		defs := 0
+		engine.Instrs(fn, func(i ssa.Instruction) {
+			st, isS := i.(*ssa.Store)
+			if !isS || st.Addr != ld.X {
+				return
+			}
+			defs++
+			n++
+			key := "newEncryptedMessage/header#" + ordinal(fn, st)
+			want := map[string]func(ssa.Value) bool{
+				"Salt":      func(v ssa.Value) bool { return sess != nil && engine.Describe(v) == engine.Describe(sess)+".Salt" },
+				"SessionID": func(v ssa.Value) bool { return sess != nil && engine.Describe(v) == engine.Describe(sess)+".ID" },
+				"MessageID": func(v ssa.Value) bool { return v == ssa.Value(fn.Params[1]) },
+				"SeqNo":     func(v ssa.Value) bool { return v == ssa.Value(fn.Params[2]) },
+			}
+			// the literal is either built in a temporary and copied (*d = *tmp) or, as go/ssa
+			// does for assignments to an existing variable, zeroed and filled in place in the same block
+			fieldVals := func(f string) []ssa.Value {
+				if src, isL := st.Val.(*ssa.UnOp); isL {
+					return engine.FieldPathStores(src.X, []string{f})
+				}
+				var out []ssa.Value
+				for _, in := range st.Block().Instrs {
+					fs, ok := in.(*ssa.Store)
+					if !ok {
+						continue
+					}
+					if fa, ok := fs.Addr.(*ssa.FieldAddr); ok && fa.X == ld.X && engine.FieldNameOf(fa) == f {
+						out = append(out, fs.Val)
+					}
+				}
+				return out
+			}
+			var bad []string
+			for f, okf := range want {
+				vals := fieldVals(f)
+				if len(vals) != 1 || !okf(vals[0]) {
+					got := "unset (zero)"
+					if len(vals) == 1 {
+						got = engine.Describe(vals[0])
+					}
+					bad = append(bad, f+"="+got)
+				}
+			}
+			sort.Strings(bad)
+			c.Check(len(bad) == 0, "C04.R6", key, st.Pos(), "every branch must fill Salt, SessionID, MessageID, SeqNo from the session and the parameters; wrong: %v", bad)
+		})
+		// direct field stores into d (no literal) are not used today; if d has no whole-struct definition the rule cannot decide
+		if defs == 0 {
+			c.Undecided("C04.R6", "newEncryptedMessage/definitions", call.Pos(), "no whole-struct definition of the message data found")
+		}
+	}
+	c.Floor("C04.R6", 3, n)
 }
